@@ -239,6 +239,7 @@ fn gen_case(seed: u64, tier: Tier) -> Case {
 					seek_gran: *g.rng.pick(&[1usize, 1, 4, 64]),
 					fail_decode: if g.rng.chance(0.15) { vec![g.rng.below(12)] } else { vec![] },
 					fail_seek: if g.rng.chance(0.08) { vec![g.rng.below(3)] } else { vec![] },
+					fail_sticky: g.rng.chance(0.5),
 				};
 				n_sounds += 1;
 				last_len = eff_len.max(1);
